@@ -882,21 +882,24 @@ def thousand_case(draw):
 def run_thousand(case):
     rng = np.random.RandomState(case["seed"])            # seed drawn by Hypothesis
     n, lag = case["n"], case["lag"]
-    core = n - 4
+    ex = case["extras"]
+    n_extra = {"none": 0, "source": 1, "sink": 1, "one_way_bridge": 2, "source_and_sink": 2}[ex]
+    core = n - n_extra                  # every state id below n is visited: no isolated (unvisited) state hides the extras
     # a long walk that visits every core state many times (strongly connected core) ...
     walk = np.concatenate([rng.permutation(core) for _ in range(4)] + [np.arange(core), np.arange(core)[::-1]])
     if lag == 2:
         walk = np.repeat(walk, 2)
     trajs = [walk.tolist()]
-    ex = case["extras"]
-    s1, s2, s3, s4 = core, core + 1, core + 2, core + 3
     rep = lag
+    nxt = core
     if ex in ("source", "source_and_sink"):
-        trajs.append([s1] * rep + [5] * rep + [6] * rep)             # s1 is only ever left
+        trajs.append([nxt] * rep + [5] * rep + [6] * rep)             # a state that is only ever left
+        nxt += 1
     if ex in ("sink", "source_and_sink"):
-        trajs.append([7] * rep + [8] * rep + [s2] * rep)             # s2 is only ever entered
+        trajs.append([7] * rep + [8] * rep + [nxt] * rep)             # a state that is only ever entered
+        nxt += 1
     if ex == "one_way_bridge":
-        trajs.append([9] * rep + [s3] * rep + [s4] * rep + [s3] * rep + [s4] * rep)   # core -> {s3, s4}, never back
+        trajs.append([9] * rep + [nxt] * rep + [nxt + 1] * rep + [nxt] * rep + [nxt + 1] * rep)   # core -> pair, never back
     a = make_assigns(trajs, case["how"])
     fn = method_fn(case["method"])
     m = MSM(lag_time=lag, method=METHODS[case["method"]], trim=True, sliding_window=case["sliding"], max_n_states=n)
